@@ -20,6 +20,12 @@ namespace NutilsVerif.C06
 
 /-! ## Part 1a: Python numbers as used for range endpoints -/
 
+/-- `abs` on Python ints -/
+def iabs (z : Int) : Int := if z < 0 then -z else z
+
+/-- `numpy.sign` on integers -/
+def isign (z : Int) : Int := if 0 < z then 1 else if z < 0 then -1 else 0
+
 inductive PyNum where
   | int (z : Int)
   | ninf
@@ -74,7 +80,7 @@ def mul : PyNum → PyNum → PyNum
   | ninf, pinf => ninf
 
 def abs : PyNum → PyNum
-  | int z => int z.natAbs
+  | int z => int (iabs z)
   | ninf => pinf
   | pinf => pinf
   | nan => nan
@@ -121,7 +127,7 @@ def andMul (b1 b2 : PyNum) : PyNum :=
 
 /-- `int(numpy.sign(x))` (raises for `nan`) -/
 def sign : PyNum → Option PyNum
-  | int z => some (int z.sign)
+  | int z => some (int (isign z))
   | ninf => some (int (-1))
   | pinf => some (int 1)
   | nan => none
@@ -169,10 +175,13 @@ def tfIdentity (r : Rng) : Option Rng := some r
 /-- `AssertEqual`: `max(lowera, lowerb), min(uppera, upperb)` -/
 def tfAssertEqual (a b : Rng) : Option Rng := some (max2 a.1 b.1, min2 a.2 b.2)
 
-/-- `Multiply`: the four guarded corner products -/
-def tfMul (r1 r2 : Rng) : Option Rng :=
+/-- `extrema = [b1 and b2 and b1 * b2 for b1 in r1 for b2 in r2]; min(extrema), max(extrema)` -/
+def mulRng (r1 r2 : Rng) : Rng :=
   let extrema := [andMul r1.1 r2.1, andMul r1.1 r2.2, andMul r1.2 r2.1, andMul r1.2 r2.2]
-  some (minL extrema, maxL extrema)
+  (minL extrema, maxL extrema)
+
+/-- `Multiply`: the four guarded corner products -/
+def tfMul (r1 r2 : Rng) : Option Rng := some (mulRng r1 r2)
 
 /-- `builtins.sum(xs)`: left fold starting from the integer 0 -/
 def pySum (xs : List PyNum) : PyNum := xs.foldl add (int 0)
@@ -190,17 +199,13 @@ def tfEinsum (sumLengths : List Rng) (args : List Rng) : Option Rng :=
   if sumLengths.any (fun l => PyNum.eq l.2 (int 0)) then some (int 0, int 0) else
   let upper := pyProd (sumLengths.map (·.2))
   let lower := if sumLengths.any (fun l => PyNum.le l.1 (int 0)) then int 0 else pyProd (sumLengths.map (·.1))
-  some <| args.foldl (fun (acc : Rng) (a : Rng) =>
-    let extrema := [andMul acc.1 a.1, andMul acc.1 a.2, andMul acc.2 a.1, andMul acc.2 a.2]
-    (minL extrema, maxL extrema)) (lower, upper)
+  some (args.foldl mulRng (lower, upper))
 
 /-- `Einsum` as in the pinned tree before the fix (kept for the refutation theorem) -/
 def tfEinsumOld (sumUppers : List PyNum) (args : List Rng) : Option Rng :=
   if sumUppers.any (fun l => PyNum.eq l (int 0)) then some (int 0, int 0) else
   let p := pyProd sumUppers
-  some <| args.foldl (fun (acc : Rng) (a : Rng) =>
-    let extrema := [andMul acc.1 a.1, andMul acc.1 a.2, andMul acc.2 a.1, andMul acc.2 a.2]
-    (minL extrema, maxL extrema)) (p, p)
+  some (args.foldl mulRng (p, p))
 
 /-- `Sum` over the last axis whose length has range `len` -/
 def tfSum (f len : Rng) : Option Rng :=
@@ -217,14 +222,24 @@ def floordivIf (x : PyNum) (d : PyNum) : Option PyNum :=
   | int _, _ => none  -- would produce a float: never happens (see `tfFloorDiv_int`)
   | x, _ => some x
 
+/-- `if isinstance(lower, int): lower //= divisor_lower if lower <= 0 else min(lower + 1, divisor_upper)` -/
+def fdLower (lower dl du : PyNum) : Option PyNum :=
+  if lower.isInt then floordivIf lower (if PyNum.le lower (int 0) then dl else min2 (add lower (int 1)) du) else some lower
+
+/-- `if isinstance(upper, int): upper //= divisor_lower if upper >= 0 else min(1 - upper, divisor_upper)` -/
+def fdUpper (upper dl du : PyNum) : Option PyNum :=
+  if upper.isInt then floordivIf upper (if PyNum.le (int 0) upper then dl else min2 (sub (int 1) upper) du) else some upper
+
+/-- the part of `FloorDivide._intbounds_impl` after the divisor has been made positive -/
+def fdivGo (lower upper dl du : PyNum) : Option Rng :=
+  match fdLower lower dl du, fdUpper upper dl du with
+  | some l, some u => some (l, u)
+  | _, _ => none
+
 def tfFloorDiv (dividend divisor : Rng) : Option Rng :=
-  let go (lower upper dl du : PyNum) : Option Rng := do
-    let lower' ← if lower.isInt then floordivIf lower (if PyNum.le lower (int 0) then dl else min2 (add lower (int 1)) du) else some lower
-    let upper' ← if upper.isInt then floordivIf upper (if PyNum.le (int 0) upper then dl else min2 (sub (int 1) upper) du) else some upper
-    some (lower', upper')
-  if PyNum.lt divisor.2 (int 0) then go (neg dividend.2) (neg dividend.1) (neg divisor.2) (neg divisor.1)
+  if PyNum.lt divisor.2 (int 0) then fdivGo (neg dividend.2) (neg dividend.1) (neg divisor.2) (neg divisor.1)
   else if PyNum.le divisor.1 (int 0) then some unbounded
-  else go dividend.1 dividend.2 divisor.1 divisor.2
+  else fdivGo dividend.1 dividend.2 divisor.1 divisor.2
 
 def tfAbs (r : Rng) : Option Rng :=
   let e1 := PyNum.abs r.1
@@ -333,5 +348,35 @@ def tfSearchSorted (len : Rng) : Option Rng := some (int 0, len.2)
 
 /-- every transfer function followed by the validation of `_intbounds` -/
 def bnd (raw : Option Rng) : Option Rng := raw.bind post
+
+
+/-! ## Part 2: concrete integer semantics of the operations (what evaluation delivers) -/
+
+/-- Python / NumPy `//` on integers (floor division); a zero divisor is outside the modelled domain -/
+def pyFloorDiv (a b : Int) : Option Int := if b = 0 then none else some (Int.fdiv a b)
+
+/-- Python / NumPy `%` on integers (sign of the divisor) -/
+def pyMod (a b : Int) : Option Int := if b = 0 then none else some (Int.fmod a b)
+
+/-- `InRange.evalf`: `assert 0 <= index < length; return index` -/
+def inRangeVal (index length : Int) : Option Int := if 0 ≤ index ∧ index < length then some index else none
+
+/-- `numeric.normdim(length, index)` -/
+def normdimVal (length index : Int) : Option Int :=
+  if length < 0 then none
+  else if index < 0 then (if index + length < 0 then none else some (index + length))
+  else if index ≥ length then none else some index
+
+/-- `RavelIndex.evalf`: `ia * nb + ib` -/
+def ravelIndexVal (ia ib nb : Int) : Int := ia * nb + ib
+
+/-- `PolyDegree` evaluation -/
+def polyDegreeVal (nv : Nat) (n : Int) : Option Int := (degree? nv n).map (fun d => (d : Int))
+
+/-- `PolyNCoeffs` evaluation (a negative degree raises) -/
+def polyNCoeffsVal (nv : Nat) (d : Int) : Option Int := if 0 ≤ d then some (ncoeffs nv d.toNat : Int) else none
+
+/-- `_SizesToOffsets` evaluation: `numpy.cumsum([0, *sizes])` -/
+def offsetsVal (sizes : List Int) : List Int := (List.range (sizes.length + 1)).map fun k => (sizes.take k).sum
 
 end NutilsVerif.C06
